@@ -29,9 +29,12 @@ def enumerate_paths(cfg: CFG, src: int, stops: set, first_label=None, max_paths:
             if len(out) > max_paths:
                 raise RuntimeError("too many paths")
             continue
+        second_visit = loop_once and sum(1 for p_, _ in path if p_ == x) >= 1
         for s, lab in node.succ:
             if not path and first_label is not None and lab != first_label:
                 continue
+            if second_visit and lab is True and (node.kind == "for" or (node.kind == "test" and isinstance(node.ast, ast.While))):
+                continue   # second arrival at a loop header: exit only
             a2 = assume
             if feasible and node.kind == "test" and hasattr(node.ast, "test") and lab in (True, False):
                 v = cfg.eval3(node.ast.test, dict(a2), x)
@@ -42,7 +45,11 @@ def enumerate_paths(cfg: CFG, src: int, stops: set, first_label=None, max_paths:
                     continue
                 a2 = a2 | frozenset(lits)
             if s in seen and s not in stops:
-                continue
+                # a loop header may be re-entered once from its own body, and is then left through its exit edge only
+                sn = cfg.nodes[s]
+                is_hdr = sn.kind == "for" or (sn.kind == "test" and isinstance(sn.ast, ast.While))
+                if not (loop_once and is_hdr and sum(1 for p_, _ in path if p_ == s) == 1 and x != s):
+                    continue
             stack.append((s, path + [(x, lab)], seen | {x}, a2))
     return out
 
